@@ -650,6 +650,7 @@ func (h *c12hpHost) NewStream(ctx context.Context, p peer.ID, protos ...protocol
 	}
 	k := h.nStream
 	h.nStream++
+	h.lastOffered = nil // a new coordination round: nothing offered yet
 	h.mu.Unlock()
 	if best == nil {
 		if nodial {
